@@ -26,6 +26,11 @@ def suites(tier):
         for cfg in product(kind=[6], cs=[0], fwd=[0, 1], pos=[0, 1]):
             cfg.update(norm=0, rep=0, pk=0, scheme=0, nmin=1, nmax=nmax, mmin=1, mmax=mmax, c16=c16, c32=c32, vsnil=1)
             jobs.append(dict(id=jid("slab", cfg), func="zzH_C05_slab", cfg=cfg))
+    # longer lines over a 4-symbol alphabet: the back-trace of FuzzyMatchV2 reads score-matrix cells
+    # of the next row that the current call may never have written
+    for cfg in product(cs=[1] if tier == "quick" else [0, 1], fwd=[1] if tier == "quick" else [0, 1]):
+        cfg.update(kind=6, pos=1, norm=0, rep=3, pk=2, scheme=0, nmin=7, nmax=7, mmin=2, mmax=2, c16=60, c32=16, vsnil=0)
+        jobs.append(dict(id=jid("slab-long", cfg), func="zzH_C05_slab", cfg=cfg))
     for cfg in product(kind=[5, 0], cs=[0], fwd=[0, 1], pos=[1]):
         cfg.update(norm=0, rep=0, pk=0, scheme=0, nmin=1, nmax=nmax, mmin=1, mmax=mmax, c16=4, c32=4, vsnil=1)
         jobs.append(dict(id=jid("slab", cfg), func="zzH_C05_slab", cfg=cfg))
